@@ -174,5 +174,17 @@ def check_pastifier_remap(ix, rep, rule='R-REMAP'):
         else:
             rep.fail(rule, f.module.rel, f.qual, 'remap', 'visit() does not re-point phi_name_to_node_dict entries of the visited node to the '
                      'rewritten node: get_value(name) after pastify() would read the old tree', f.node.lineno)
+        # the rewritten node depends on the remaining look-ahead passed as argument: visit() must dispatch on every call
+        cfg = flow.CFG(f.node)
+        dom = cfg.dominators()
+        deleg = [n_ for n_ in cfg.nodes() if cfg.stmt[n_] is not None and not isinstance(cfg.stmt[n_], (ast.If, ast.For, ast.While))
+                 and any(isinstance(c, ast.Call) and D._delegation(ix, cls, cls, c) is not None for c in ast.walk(cfg.stmt[n_]))]
+        rets = [n_ for n_ in cfg.nodes() if isinstance(cfg.stmt[n_], ast.Return) and n_ in cfg.reachable()]
+        early = [r for r in rets if not any(d_ in dom[r] for d_ in deleg)]
+        if early:
+            rep.fail(rule, f.module.rel, f.qual, 'dispatch-every-call', 'visit() can return without dispatching (line %d): the rewritten node depends on the remaining look-ahead '
+                     'given as argument, so a result remembered per node is wrong for a second occurrence that needs a different delay' % cfg.stmt[early[0]].lineno, cfg.stmt[early[0]].lineno)
+        else:
+            rep.ok(rule, f.module.rel, f.qual, 'dispatch-every-call', 'every call rewrites the node for its own remaining look-ahead', f.node.lineno)
         n += 1
     return n
